@@ -520,6 +520,8 @@ def gen_range_case(rng, tier, op):
     `test` cases run the whole martingale on the same samples with parameters kept where the factors are computed
     without catastrophic cancellation (the exact model does not round): u - eta_j and 1 - lambda_j*mu_j are either
     exactly 0 or not smaller than about 1e-4."""
+    if op in ("estim", "test") and rng.chance(0.3):
+        return gen_range_unow(rng, tier, op)
     mild = op == "test"
     nmax = 12 if tier == "quick" else 40
     n = rng.choice([1, 2, 3, 4, 5, 6, 8, 10, nmax, nmax])
@@ -586,11 +588,73 @@ def gen_range_case(rng, tier, op):
     return {"op": op, "init": init, "x": [S(v) for v in x], "stream": f"c13:{estim or bet or 'default'}:{name}"}
 
 
+def gen_range_unow(rng, tier, op):
+    """shrink_trunc on a test object whose upper bound is re-assigned after construction (`test.u = ...`, as
+    Assertion.set_margin_from_cvrs and the margin setters of Audit do: u = the assorter's upper bound 1/(2 share) for a
+    polling audit, 2/(2 - margin/upper) for a comparison audit), lowered or raised, with a long run of small values in
+    a population hardly larger than the sample: the null mean mu_j climbs to the upper bound, mu_j + c/sqrt(d+j-1)
+    passes it, and the estimate has to be truncated at the CURRENT u (and stay above mu_j while mu_j < u)."""
+    nmax = 12 if tier == "quick" else 40
+    n = rng.choice([6, 8, 10, 12, nmax, nmax])
+    u0 = rng.choice([F(1), F(1), F(1), F(5, 4), F(3, 2), F(2)])
+    if rng.chance(0.5):     # lowered (super-majority polling: 1/(2 share)), dyadic or not
+        un = u0 * rng.choice([F(4, 5), F(2, 3), F(3, 4), F(7, 8), F(10, 11), F(5, 8), 1 - pow2(10)])
+    else:                   # raised (comparison audit: 2/(2 - margin))
+        un = u0 * rng.choice([F(8, 5), F(9, 8), F(5, 4), F(3, 2), F(2), F(20, 19), 1 + pow2(10)])
+    t = rng.choice([F(1, 2)] * 4 + [F(1, 4), F(3, 8), un / 2])
+    if not (0 < t < min(u0, un)):
+        t = min(u0, un) / 2
+    N = rng.choice([n, n, n + 1, n + 2, n + n // 2, 2 * n])
+    small = rng.choice([[F(0)], [F(0)], [F(0), F(0), F(0), un / 8], [F(0), un / 16], [un / 8]])
+    k = rng.randint(n // 2, n)
+    x = [rng.choice(small) for _ in range(k)] + [rng.choice([un, un, un / 2, grid_val(rng, un)]) for _ in range(n - k)]
+    kw = {}
+    lo, hi = t, min(u0, un)
+    if rng.chance(0.75):
+        kw["eta"] = rng.choice([lo + (hi - lo) / 8, (lo + hi) / 2, hi - (hi - lo) / 8])
+    if rng.chance(0.8):
+        kw["c"] = rng.choice([F(1, 2), F(1, 2), F(1, 4), F(1, 8), (hi - t) / 2])
+    if rng.chance(0.8):
+        kw["d"] = rng.choice([F(1), F(10), F(10), F(100)])
+    if rng.chance(0.4):
+        kw["f"] = rng.choice([F(0), F(0), F(1, 100), F(1)])
+    if rng.chance(0.3):
+        kw["minsd"] = rng.choice([F(1, 10 ** 6), F(1, 100), F(1, 4)])
+    init = {"test": "alpha_mart", "estim": "shrink_trunc", "bet": None, "u": S(u0), "N": N, "t": S(t),
+            "ro": rng.chance(0.8), "kw": {k_: S(v) for k_, v in kw.items()}, "u_now": S(un)}
+    return {"op": op, "init": init, "x": [S(v) for v in x],
+            "stream": f"c13:shrink_trunc:u-{'lowered' if un < u0 else 'raised'}"}
+
+
+def gen_c10_late_zero(rng, tier):
+    """comparison-audit data for the test the library configures for comparison audits (alpha_mart with
+    estim=optimal_comparison, u = 2/(2 - margin) set at construction or assigned afterwards): overstatement-assorter
+    values u/2 (CVR and ballot agree), now and then u/4, 3u/4, u (one-vote errors, understatements), and an exact 0
+    (two-vote overstatement) that first appears late, after the p-value has already come down (risk part of C10)"""
+    nmax = 12 if tier == "quick" else 40
+    n = rng.choice([4, 5, 6, 8, 10, nmax, nmax])
+    u = rng.choice([F(17, 16), 1 + F(1, 1024), F(5, 4), F(3, 2), F(2), 1 + F(1, 2 ** 20), F(9, 8), 1 + F(1, 64)])
+    N = rng.choice([None, None, 100 * n, 10 * n, 2 * n, n + 2])
+    k0 = rng.randint(max(1, n // 2), n - 1)
+    ok = [u / 2] * 12 + [u / 4, 3 * u / 4, u]
+    x = [rng.choice(ok) for _ in range(k0)] + [F(0)] + [rng.choice(ok + [F(0), F(0)]) for _ in range(n - k0 - 1)]
+    kw = {}
+    if rng.chance(0.6):
+        kw["rate_error_2"] = rng.choice([F(0), F(1, 10 ** 4), F(1, 1000), F(1, 100), F(1, 10)])
+    init = {"test": "alpha_mart", "estim": "optimal_comparison", "bet": None, "u": S(u), "N": N, "t": "1/2", "ro": True,
+            "kw": {k_: S(v) for k_, v in kw.items()}, "u_now": None}
+    if rng.chance(0.4):
+        init["u"], init["u_now"] = "1", S(u)      # built with the default bound, then `test.u = 2/(2 - margin)`
+    return {"op": "test", "init": init, "x": [S(v) for v in x], "stream": "c10:late-zero"}
+
+
 def gen(rng, n, tier):
     k = 0
     while k < n:
         r = rng.random()
-        if r < 0.60:
+        if r < 0.04:
+            yield gen_c10_late_zero(rng, tier)
+        elif r < 0.60:
             yield gen_case(rng, tier, "test")
         elif r < 0.66:
             yield gen_range_case(rng, tier, "test")
@@ -830,17 +894,16 @@ def oracle_c13(case, ir):
     kw = {k: F(v) for k, v in init["kw"].items() if v is not None}
     mu = null_means(N, t, x)
     tol = 1e-12
-    if case["op"] == "estim":
-        if ir.get("st") != "ok":
-            if ir.get("err") == "ZeroDivisionError" and init.get("estim") == "optimal_comparison" and u == 1:
-                return None
-            return {"what": f"estimator raised {ir.get('err')}: {ir.get('msg')}"}
-        est = init.get("estim") or "fixed_alternative_mean"
+    est = init.get("estim") or "fixed_alternative_mean"
+
+    def estim_range(vals):
+        """the estimates `vals` (one per observation) lie in [0,u] (u = the test's current upper bound) wherever the
+        null mean is in (0,u]; shrink_trunc is moreover strictly above the null mean wherever that is below u"""
         if est in ("fixed_alternative_mean", "shrink_trunc") and "eta" in kw and not (t < kw["eta"] < u):
             return None
         if est == "shrink_trunc" and any(kw.get(k, F(1)) <= 0 for k in ("c", "d", "minsd")):
             return None
-        for j, (e, m) in enumerate(zip(ir["v"], mu)):
+        for j, (e, m) in enumerate(zip(vals, mu)):
             if not (0 < m <= u):
                 continue
             if math.isnan(e) or e < -tol or e > float(u) * (1 + 1e-15) + tol:
@@ -848,6 +911,13 @@ def oracle_c13(case, ir):
             if est == "shrink_trunc" and float(m) < float(u) * (1 - 2.3e-16) and not (e > float(m)):
                 return {"what": f"shrink_trunc: eta_{j + 1} = {e!r} is not above the null mean {float(m)} < u"}
         return None
+
+    if case["op"] == "estim":
+        if ir.get("st") != "ok":
+            if ir.get("err") == "ZeroDivisionError" and init.get("estim") == "optimal_comparison" and u == 1:
+                return None
+            return {"what": f"estimator raised {ir.get('err')}: {ir.get('msg')}"}
+        return estim_range(ir["v"])
     if case["op"] == "bet":
         if ir.get("st") != "ok":
             return {"what": f"bet raised {ir.get('err')}: {ir.get('msg')}"}
@@ -867,6 +937,13 @@ def oracle_c13(case, ir):
         for j, v in enumerate(ir["hist"]):
             if v < 0:
                 return {"what": f"negative history entry {v!r} at {j}: some factor of the statistic was negative"}
+        if (init.get("test") or "alpha_mart") == "alpha_mart":
+            # the estimates the test just used: the same object life cycle (construction, then `u_now`), same sample
+            ev = impl_call(lambda: bc(make_nm(init).estim(xs(case)), len(x)))
+            if isinstance(ev, list):
+                r = estim_range(ev)
+                if r:
+                    return {"what": "alternative means used by alpha_mart: " + r["what"]}
     return None
 
 
@@ -987,17 +1064,34 @@ def oracle_c05(case, ir):
 
 
 def oracle_c10(case, ir):
-    """risk_mono: for random-order tests the overall p-value cannot increase when observations are appended"""
+    """risk_mono: for random-order tests the overall p-value (the measured risk) cannot increase when observations are
+    appended -- between any two rounds: the p-values of the prefixes x[:k] (every k for samples of at most 8
+    observations, else first / last / middle / quartiles / two keyed cut points) are non-increasing in k, down to the
+    p-value of the whole sample"""
     if not valid_for_wellformed(case) or ir.get("st") != "ok" or len(case["x"]) < 2 or not case["init"]["ro"]:
         return None
+    if any(math.isnan(v) for v in ir["hist"]) or math.isnan(ir["p"]):
+        return None       # a NaN p-value is C11's to report (known finding F27: overflow, then a factor 0); no order with NaN
     x = [F(v) for v in case["x"]]
-    k = len(x) // 2 if len(x) > 2 else 1
-    nm = make_nm(case["init"])
-    r = impl_call(lambda: nm.test(np.array([float(v) for v in x[:k]])))
-    if isinstance(r, dict):
-        return None
-    if float(r[0]) + 1e-12 < ir["p"]:
-        return {"what": f"p-value rose from {float(r[0])!r} to {ir['p']!r} when observations {k + 1}..{len(x)} were appended"}
+    n = len(x)
+    if n <= 8:
+        cuts = list(range(1, n))
+    else:
+        key = sum(int(v * 64) for v in x) + n
+        cuts = sorted({1, 2, n // 4, n // 2, (3 * n) // 4, n - 2, n - 1, 1 + key % (n - 1), 1 + (key // 7) % (n - 1)})
+    prev_k, prev_p = None, None
+    for k in cuts + [n]:
+        if k == n:
+            p = ir["p"]
+        else:
+            r = impl_call(lambda: make_nm(case["init"]).test(np.array([float(v) for v in x[:k]])))
+            if isinstance(r, dict):
+                continue
+            p = float(r[0])
+        if prev_p is not None and prev_p + 1e-12 < p:
+            return {"what": f"p-value rose from {prev_p!r} (first {prev_k} observations) to {p!r} (first {k}) when "
+                            f"observations {prev_k + 1}..{k} were appended", "cut": prev_k, "upto": k}
+        prev_k, prev_p = k, p
     return None
 
 
